@@ -63,6 +63,8 @@ def run_case(case):
     mp = (im * dx, jm * dy) if fp else (0.0, 0.0)
     bg = 0.0 if fp else float(rng.choice([0.0, 2.5]))
     _, c0, f0 = run(St, q0, levels, footprint=fp, meas_pt=mp, srf_bg_conc=bg)
+    cs, fs = solve.surface_fields(St, q0, footprint=fp, meas_pt=mp, precision=prec)
+    floorF = {"conc": float(np.max(np.abs(np.fft.fft2(cs)))), "flx": float(np.max(np.abs(np.fft.fft2(fs))))}
     mask = solve.spectrum_mask(ny, nx, St["modes"][1], St["modes"][0])
     for axis, nm in ((1, "x"), (0, "y")):
         Sm = dict(St)
@@ -75,7 +77,7 @@ def run_case(case):
         for fld, a, b_ in (("conc", c1, c0), ("flx", f1, f0)):
             exp = np.roll(np.flip(b_, axis=axis + 1), 1, axis=axis + 1)
             A, E = np.fft.fft2(a), np.fft.fft2(exp)
-            scale = max(float(np.max(np.abs(E))), 1e-300)
+            scale = max(float(np.max(np.abs(E))), floorF[fld], 1e-300)
             e = float(np.max(np.abs((A - E)[:, mask]))) / scale
             record(f"mirror_{nm}", e, tol, field=fld, footprint=fp, levels=levels, setup=desc)
     if oblique:
@@ -95,6 +97,12 @@ def run_case(case):
         im, jm = int(rng.integers(nx)), int(rng.integers(ny))
         mp = (im * dx, jm * dy) if (fp or rng.random() < 0.5) else (0.0, 0.0)
         g0, c0, f0 = run(Sh, q0, lv, footprint=fp, meas_pt=mp)
+        ssc, ssf = solve.surface_scales(Sh, q0, footprint=fp, meas_pt=mp, precision=prec)
+        fl = {"conc": ssc, "flx": ssf}
+
+        def rel(a_, b__, fld_):
+            return solve.relerr(a_, b__, scale=max(float(np.max(np.abs(b__))), fl[fld_], 1e-300))
+
         obl = bool(abs(u[-1]) > 1e-6 and abs(v[-1]) > 1e-6 and not np.allclose(Kx, Ky))
         # transpose
         T = dict(Sh)
@@ -104,7 +112,7 @@ def run_case(case):
         gT, cT, fT = run(T, q0.T.copy(), lv, footprint=fp, meas_pt=(mp[1], mp[0]))
         for fld, a, b_ in (("conc", cT, c0), ("flx", fT, f0)):
             exp = np.swapaxes(b_, 1, 2)
-            record("transpose", solve.relerr(a, exp), tolh, field=fld, footprint=fp, levels=lv, setup=dh, meas_pt=mp)
+            record("transpose", rel(a, exp, fld), tolh, field=fld, footprint=fp, levels=lv, setup=dh, meas_pt=mp)
         if obl:
             sigs.append(f"{case['idx']}|transpose")
         # length scale
@@ -116,8 +124,8 @@ def run_case(case):
         L["domain"] = (Sh["domain"][0] * s, Sh["domain"][1] * s)
         L["halo"] = None if Sh["halo"] is None else Sh["halo"] * s
         gL, cL, fL = run(L, q0, lv, footprint=fp, meas_pt=(mp[0] * s, mp[1] * s))
-        record("length_scale", solve.relerr(cL, c0), tolh, field="conc", s=s, footprint=fp, levels=lv, setup=dh)
-        record("length_scale", solve.relerr(fL, f0), tolh, field="flx", s=s, footprint=fp, levels=lv, setup=dh)
+        record("length_scale", rel(cL, c0, "conc"), tolh, field="conc", s=s, footprint=fp, levels=lv, setup=dh)
+        record("length_scale", rel(fL, f0, "flx"), tolh, field="flx", s=s, footprint=fp, levels=lv, setup=dh)
         for k_, (ga, gb) in enumerate(zip(gL, g0)):
             if solve.relerr(np.asarray(ga), np.asarray(gb) * s) > 1e-12:
                 viol.append(dict(what="length_scale_grid", axis=k_, s=s, setup=dh))
@@ -128,8 +136,8 @@ def run_case(case):
         V = dict(Sh)
         V["profiles"] = (u * sv, v * sv, Kx * sv, Ky * sv, Kz * sv)
         gV, cV, fV = run(V, q0, lv, footprint=fp, meas_pt=mp)
-        record("velocity_scale", solve.relerr(fV, f0), tolh, field="flx", s=sv, footprint=fp, levels=lv, setup=dh)
-        record("velocity_scale", solve.relerr(cV * sv, c0), tolh, field="conc", s=sv, footprint=fp, levels=lv, setup=dh)
+        record("velocity_scale", rel(fV, f0, "flx"), tolh, field="flx", s=sv, footprint=fp, levels=lv, setup=dh)
+        record("velocity_scale", rel(cV * sv, c0, "conc"), tolh, field="conc", s=sv, footprint=fp, levels=lv, setup=dh)
         sigs.append(f"{case['idx']}|velocity")
     b = {f"prec:{prec}": 1, f"mirror_modes:{St['mode_class']}": 1, "oblique" if oblique else "axis_aligned_or_isotropic": 1,
          f"profiles:{St['pdesc'].get('closure', St['pdesc']['kind'])}": 1, gen.gbucket(St["G"]): 1}
